@@ -103,6 +103,21 @@ func main() {
 			os.Exit(1)
 		}
 		fmt.Println("replay: the recorded violation did not occur on this tree")
+	case "dump":
+		// determinism self-test: full per-episode event log of episodes [from,to)
+		seed, _ := strconv.ParseUint(os.Args[4], 10, 64)
+		from, _ := strconv.Atoi(os.Args[5])
+		to, _ := strconv.Atoi(os.Args[6])
+		b := keysim.NewBatch(os.Args[2], os.Args[3], seed)
+		enc := json.NewEncoder(os.Stdout)
+		for e := from; e < to && e < b.Len(); e++ {
+			ep := b.At(e)
+			fmt.Printf("%d %s ", e, ep.Digest())
+			enc.Encode(keysim.Run(ep))
+		}
+	case "fixedlen":
+		seed, _ := strconv.ParseUint(os.Args[4], 10, 64)
+		fmt.Println(len(keysim.NewBatch(os.Args[2], os.Args[3], seed).Fixed))
 	case "episode":
 		seed, _ := strconv.ParseUint(os.Args[4], 10, 64)
 		e, _ := strconv.Atoi(os.Args[5])
